@@ -273,6 +273,10 @@ val cos : RbaseSymbolsImpl.coq_R -> RbaseSymbolsImpl.coq_R
 
 val sin : RbaseSymbolsImpl.coq_R -> RbaseSymbolsImpl.coq_R
 
+val tan : RbaseSymbolsImpl.coq_R -> RbaseSymbolsImpl.coq_R
+
+val sqrt : RbaseSymbolsImpl.coq_R -> RbaseSymbolsImpl.coq_R
+
 type 't ops = { o0 : 't; o1 : 't; oadd : ('t -> 't -> 't);
                 omul : ('t -> 't -> 't); osub : ('t -> 't -> 't);
                 oopp : ('t -> 't); odiv : ('t -> 't -> 't);
@@ -365,6 +369,21 @@ val polyhedron_ff_code :
   RbaseSymbolsImpl.coq_R vec3 -> (RbaseSymbolsImpl.coq_R
   vec3 * RbaseSymbolsImpl.coq_R vec3 list) list -> cx
 
+val branch_horizontal :
+  RbaseSymbolsImpl.coq_R -> RbaseSymbolsImpl.coq_R -> RbaseSymbolsImpl.coq_R
+
+val branch_vertical :
+  RbaseSymbolsImpl.coq_R -> RbaseSymbolsImpl.coq_R -> RbaseSymbolsImpl.coq_R
+
+val branch_generic :
+  RbaseSymbolsImpl.coq_R -> RbaseSymbolsImpl.coq_R -> RbaseSymbolsImpl.coq_R
+  -> RbaseSymbolsImpl.coq_R
+
+val edge_distance :
+  RbaseSymbolsImpl.coq_R -> RbaseSymbolsImpl.coq_R -> RbaseSymbolsImpl.coq_R
+  -> RbaseSymbolsImpl.coq_R -> RbaseSymbolsImpl.coq_R ->
+  RbaseSymbolsImpl.coq_R
+
 val ffr_polygon :
   RbaseSymbolsImpl.coq_R vec3 -> RbaseSymbolsImpl.coq_R vec3 ->
   RbaseSymbolsImpl.coq_R vec3 list ->
@@ -374,3 +393,8 @@ val ffr_polyhedron :
   RbaseSymbolsImpl.coq_R vec3 -> (RbaseSymbolsImpl.coq_R
   vec3 * RbaseSymbolsImpl.coq_R vec3 list) list ->
   RbaseSymbolsImpl.coq_R * RbaseSymbolsImpl.coq_R
+
+val ffr_edge_distance :
+  RbaseSymbolsImpl.coq_R -> RbaseSymbolsImpl.coq_R -> RbaseSymbolsImpl.coq_R
+  -> RbaseSymbolsImpl.coq_R -> RbaseSymbolsImpl.coq_R ->
+  RbaseSymbolsImpl.coq_R
